@@ -262,6 +262,15 @@ func c11Exec(plan *Plan, st *Stats) *Violation {
 			if len(toks) < len(lineNames) {
 				continue
 			}
+			if k := len(toks) - len(lineNames) - 1; k >= 0 && strings.HasPrefix(toks[k], "x=") && len(lineNames) >= 3 {
+				// visited_count(first) + visited_count(last) * 1000 evaluated as one expression: the first result
+				// is still held while the second call runs
+				a, b := lineNames[0], lineNames[len(lineNames)-3]
+				want := expected[a] + expected[b]*1000
+				if got, err := strconv.Atoi(toks[k][2:]); err != nil || got != want {
+					return &Violation{Clause: "C11.count", OpIndex: i, Expected: fmt.Sprintf("visited_count(%q) + visited_count(%q) * 1000 = %d", a, b, want), Observed: toks[k][2:], Note: "two counters read inside one expression, in " + fmt.Sprintf("%q", text)}
+				}
+			}
 			toks = toks[len(toks)-len(lineNames):]
 			for k, name := range lineNames {
 				parts := strings.Split(toks[k], ",")
